@@ -21,6 +21,7 @@ RULE = (
     "expression tree. layout: two nested levels (each reverse or forward) through ravel / reshape / flatten with order 'A' / 'K' of a "
     "C-, Fortran- or transposed-storage array that depends on the variables of both levels, against the closed form."
     ' nested_nary: one operation on three operands of different levels; vector3: three levels around a matrix product, the innermost differentiation closing over both enclosing levels, the outer-level operand optionally passed through array-method identities and the product optionally checkpointed.'
+    ' mixed_kind: two levels whose variables differ in kind (real outer / complex inner or the reverse) joined by a matrix or elementwise product; closed-form inner gradient, central differences of it for the outer derivative, and the kind of the result.'
 )
 
 MODES = ["grad", "deriv", "jac", "vjp", "jvp", "egrad", "vag", "hvp_like"]
@@ -545,6 +546,121 @@ def layout_body(c):
     return ok(nontrivial=bool(isf), key=json.dumps(sample), labels=["layout=" + layout, "how=" + how, f"modes={outer_mode}/{inner_mode}"], sample=sample)
 
 
+def mixed_kind_body(c):
+    """Two levels whose variables are of different kinds: the OUTER variable A is real, the INNER one B complex (or the other way round), joined by
+    a product (dot / matmul / @ / einsum / tensordot / elementwise).  With P = prod(A, B): g(A, B) = Re sum(C * P) (form lin) or Re sum(C * P * P)
+    (form sq); the inner gradient with respect to B is, in autograd's convention for a holomorphic integrand, prod-adjoint applied to C (lin) or to
+    2 C P (sq) - written out in NumPy here; h(A) = Re sum(W * inner gradient).  dh/dA: central differences of that NumPy closed form (h is a polynomial
+    of degree <= 2 in A), and its KIND is the kind of A: a real variable gets a real derivative."""
+    import autograd
+    import autograd.numpy as anp
+
+    from .. import values
+    from ..case import describe_exc, from_autograd
+
+    vseed = c.seed()
+    op = c.choice(["dot", "matmul", "at", "einsum", "tensordot", "mul"])
+    form = c.choice(["lin", "sq"])
+    outer_kind = c.choice(["real", "real", "complex"])  # the kind of the OUTER variable; the inner one has the other kind
+    modes = c.choice(["rr", "rr", "fr", "rf"])
+    m, k, n = c.int(1, 3), c.int(1, 3), c.int(1, 3)
+    shA, shB = ((m, k), (k, n)) if op != "mul" else ((m, n), (m, n))
+    shP = (m, n)
+    rs, _ = values.generic(vseed, [shA, shB, shB, shP, shP, shB, shB, shA, shA], -1.3, 1.3)
+    if outer_kind == "real":
+        A0, B0 = rs[0], rs[1] + 1j * rs[2]
+    else:
+        A0, B0 = rs[0] + 1j * rs[7], rs[1]
+    Cc = rs[3] + 1j * rs[4]
+    Wc = rs[5] + 1j * rs[6]
+    sample = {"op": op, "form": form, "outer": outer_kind, "modes": modes, "shapes": [list(shA), list(shB)], "vseed": vseed}
+    c.features.update(op=op, form=form, outer=outer_kind, modes=modes)
+    bucket = lambda kk: f"C08|mixed_kind|{op}|{kk}"
+
+    def prod(ns, A, B):
+        if op == "dot":
+            return ns.dot(A, B)
+        if op == "matmul":
+            return ns.matmul(A, B)
+        if op == "at":
+            return A @ B
+        if op == "einsum":
+            return ns.einsum("ik,kj->ij", A, B)
+        if op == "tensordot":
+            return ns.tensordot(A, B, axes=1)
+        return A * B
+
+    def adj_B(A, G):  # the holomorphic derivative of sum(G * prod(A, B)) with respect to B
+        return A.T @ G if op != "mul" else A * G
+
+    def g(A, B):
+        P = prod(anp, A, B)
+        return anp.real(anp.sum(Cc * P)) if form == "lin" else anp.real(anp.sum(Cc * P * P))
+
+    def inner_grad_ref(A):
+        P = prod(onp, A, B0)
+        full = adj_B(A, Cc) if form == "lin" else adj_B(A, 2 * Cc * P)
+        # B real: only the real part of the holomorphic derivative is a derivative with respect to B
+        return full if outer_kind == "real" else onp.real(full)
+
+    def h_ref(A):
+        return float(onp.real(onp.sum(Wc * inner_grad_ref(A))))
+
+    def h(A):
+        if modes[1] == "r":
+            gB = autograd.grad(g, 1)(A, B0)
+        else:
+            # inner level in forward mode: one unit direction per (real and imaginary) coordinate of B
+            gB = anp.zeros(shB) * (1j if outer_kind == "real" else 1.0)
+            for idx in onp.ndindex(*shB):
+                e = onp.zeros(shB)
+                e[idx] = 1.0
+                dre = autograd.make_jvp(lambda B_: g(A, B_))(B0)(e + 0j if outer_kind == "real" else e)[1]
+                part = dre
+                if outer_kind == "real":
+                    dim = autograd.make_jvp(lambda B_: g(A, B_))(B0)(1j * e)[1]
+                    part = dre - 1j * dim
+                gB = gB + part * e
+        return anp.real(anp.sum(Wc * gB))
+
+    # reference derivative of h_ref with respect to the real (and imaginary) coordinates of A
+    def num(A, direction):
+        hh = 1e-4
+        return (h_ref(A + hh * direction) - h_ref(A - hh * direction)) / (2 * hh)
+
+    try:
+        if abs(float(h(A0)) - h_ref(A0)) > 1e-10 * max(1.0, abs(h_ref(A0))):
+            return fail("wrong_value", f"inner gradient (kind {'complex' if outer_kind == 'real' else 'real'} variable) gives h = {float(h(A0))!r}, closed form {h_ref(A0)!r}", bucket("inner_value"), sample=sample)
+        if modes[0] == "r":
+            got = autograd.grad(h)(A0)
+        else:
+            got = onp.zeros(shA, dtype=complex if outer_kind == "complex" else float)
+            for idx in onp.ndindex(*shA):
+                e = onp.zeros(shA)
+                e[idx] = 1.0
+                dre = autograd.make_jvp(h)(A0)(e + 0j if outer_kind == "complex" else e)[1]
+                got[idx] = dre
+                if outer_kind == "complex":
+                    got[idx] = dre - 1j * autograd.make_jvp(h)(A0)(1j * e)[1]
+    except Exception as e:
+        if not from_autograd(e):
+            raise
+        return fail("unexpected_exception", describe_exc(e), bucket("exception"), sample=sample)
+    got = onp.asarray(got)
+    want = onp.zeros(shA, dtype=complex if outer_kind == "complex" else float)
+    for idx in onp.ndindex(*shA):
+        e = onp.zeros(shA)
+        e[idx] = 1.0
+        want[idx] = num(A0, e) if outer_kind == "real" else num(A0, e) - 1j * num(A0, 1j * e)
+    if got.shape != shA:
+        return fail("wrong_shape", f"outer derivative has shape {got.shape}, the variable {shA}", bucket("shape"), sample=sample)
+    if outer_kind == "real" and got.dtype.kind == "c":
+        return fail("wrong_kind", f"the derivative with respect to a REAL outer variable is complex: {got.tolist()}", bucket("kind"), sample=sample)
+    if not onp.allclose(got, want, rtol=1e-6, atol=1e-7):
+        return fail("wrong_value", f"outer derivative {got.tolist()} expected {want.tolist()}", bucket("value"), sample=sample)
+    return ok(nontrivial=True, key=json.dumps([op, form, outer_kind, modes, list(shA), list(shB)]), labels=["mixed_kind", "op=" + op, "outer=" + outer_kind, "modes=" + modes], sample=sample)
+
+
 PROP = Prop("C08", [
     Test("nested_d3", partial(body, 3), quick=4000, thorough=20000, shard_size=150),
     Test("nested_d4", partial(body, 4), quick=2500, thorough=12000, shard_size=100),
@@ -552,6 +668,7 @@ PROP = Prop("C08", [
     Test("vector", vector_body, quick=1000, thorough=4000, shard_size=100),
     Test("vector3", vector3_body, quick=800, thorough=6000, shard_size=100),
     Test("layout", layout_body, quick=600, thorough=4000, shard_size=100),
+    Test("mixed_kind", mixed_kind_body, quick=600, thorough=4000, shard_size=100),
 ], RULE, assumptions=[
     "reference symbolic differentiator (vh/refs/symbolic.py) is correct; it shares no code with autograd",
     "scalar expression programs plus one family of vector-valued nestings; nesting depth <= 4-5",
